@@ -229,7 +229,7 @@ def find_items(src, lo, hi, kind, name):
                         j = src.match[j]
                     j += 1
                 header = src.text[src.sig[i + 1][1]:src.sig[j][1]]
-                if norm(header) == norm(name):
+                if norm(header) == norm(name) or norm(header).startswith(norm(name) + "where"):
                     res.append(_mk_item(src, i, j, src.match[j]))
                 i = src.match[j] + 1
                 continue
@@ -306,6 +306,8 @@ def locate(src, selector):
         part, ordinal = m.group(1), int(m.group(2) or 1)
         if part.startswith("macro_rules!"):
             kind, name = "macro_rules", part[len("macro_rules!"):].strip()
+        elif part.startswith("impl<") or part.startswith("impl "):
+            kind, name = "impl", part[4:]
         else:
             kind, _, name = part.partition(" ")
         if kind not in KEYWORDS_ITEM:
@@ -331,7 +333,10 @@ DROP_ATTRS = ("derive", "trace", "builtin", "allow", "inline", "must_use", "cold
               "repr", "default", "error", "diagnostic", "expect", "typed")
 
 
-def rewrite(text, keep_attrs=False, keep_pub=False, name="<item>"):
+STD_DERIVES = {"Debug", "Clone", "Copy", "PartialEq", "Eq", "PartialOrd", "Ord", "Hash", "Default"}
+
+
+def rewrite(text, keep_attrs=False, keep_pub=False, name="<item>", std_derives=False):
     """Apply R1-R3 to `text` (an item or a body). Token-based."""
     src = Src(text, name)
     cut = []  # (start,end) byte ranges to delete
@@ -366,7 +371,13 @@ def rewrite(text, keep_attrs=False, keep_pub=False, name="<item>"):
                     i = end + 1
                     continue
                 raise Unsupported(f"{name}: cfg attribute outside R2: #[{an}]")
-            if not keep_attrs and aname in DROP_ATTRS:
+            if std_derives and aname == "derive":
+                names = [x.strip() for x in an[an.index("(") + 1:an.rindex(")")].split(",") if x.strip()]
+                keepn = [x for x in names if x in STD_DERIVES]
+                cut.append((sig[i][1], sig[close][2], ("#[derive(" + ", ".join(keepn) + ")]") if keepn else ""))
+            elif std_derives and aname == "default":
+                pass
+            elif not keep_attrs and aname in DROP_ATTRS:
                 cut.append((sig[i][1], sig[close][2]))
             i = close + 1
             continue
@@ -384,12 +395,16 @@ def rewrite(text, keep_attrs=False, keep_pub=False, name="<item>"):
         for k, s, e in src.toks:
             if k == "comment" and (text.startswith("///", s) or text.startswith("//!", s)):
                 cut.append((s, e))
-    cut.sort()
+    cut.sort(key=lambda c: (c[0], c[1]))
     out, pos = [], 0
-    for s, e in cut:
+    for c in cut:
+        s, e = c[0], c[1]
         if s < pos:
             continue
-        out.append(text[pos:s]); pos = e
+        out.append(text[pos:s])
+        if len(c) > 2:
+            out.append(c[2])
+        pos = e
     out.append(text[pos:])
     return "".join(out)
 
@@ -505,6 +520,13 @@ def process(template_text, tname="<template>"):
     while i < len(lines):
         l = lines[i]
         st = l.strip()
+        if st.startswith("//@include "):
+            inc = os.path.join(os.path.dirname(os.path.abspath(__file__)), "standins", st[len("//@include "):].strip())
+            out.append(f"// ---- begin stand-in include {os.path.basename(inc)} (hand-written, trusted) ----")
+            out.append(open(inc).read().rstrip("\n"))
+            out.append("// ---- end stand-in include ----")
+            i += 1
+            continue
         if st.startswith("//@item ") or st.startswith("//@body "):
             kind = st[3:7]
             rest = st[8:].strip()
@@ -518,7 +540,7 @@ def process(template_text, tname="<template>"):
             if kind == "item":
                 raw = src.text[item["start"]:item["end"]]
                 rw = rewrite(raw, keep_attrs="keep-attrs" in opts, keep_pub="keep-pub" in opts,
-                             name=f"{file}::{selector}")
+                             name=f"{file}::{selector}", std_derives="std-derives" in opts)
                 for o in opts:
                     if o.startswith("rename="):
                         a, b = o[7:].split("->")
